@@ -191,6 +191,7 @@ func guarded(deadline time.Duration, fn func()) string {
 // ExecSchema runs NewSchema on arbitrary bytes.
 func ExecSchema(schema []byte, extra customfuncs.CustomFuncs, deadline time.Duration) (*Outcome, omniparser.Schema) {
 	curCase.Store(mkCase(schema, nil))
+	noteInflight(mkCase(schema, nil))
 	var sch omniparser.Schema
 	o := watch(&Outcome{Stage: "NewSchema"}, deadline, func(o *Outcome, pg *progress) {
 		s, err := omniparser.NewSchema("s", bytes.NewReader(schema), extWith(extra)...)
@@ -217,6 +218,7 @@ func ExecSchema(schema []byte, extra customfuncs.CustomFuncs, deadline time.Dura
 // ExecInput runs NewTransform and the Read loop of an accepted schema on a finite input.
 func ExecInput(s omniparser.Schema, input []byte, deadline time.Duration) *Outcome {
 	curCase.Store(mkCase(s.Content(), input))
+	noteInflight(mkCase(s.Content(), input))
 	return watch(&Outcome{Stage: "NewTransform", SchemaAccepted: true}, deadline, func(o *Outcome, pg *progress) {
 		t, err := s.NewTransform("i", bytes.NewReader(input), &transformctx.Ctx{ExternalProperties: map[string]string{"e": "ext"}})
 		pg.tick.Store(time.Now().UnixNano())
